@@ -50,6 +50,13 @@ def exhaustive_scope():
 def random_scope(rng, n):
     """Random float lists (with duplicates, -0.0/0.0, infinities); the model sees ranks."""
     specials = [0.0, -0.0, float("inf"), float("-inf"), 1.0, 1.0000000000000002, 5e-324, -5e-324]
+    # a fixed battery first (whatever the random stream does): probes that a conversion to float would move onto - or past - a stored element
+    from decimal import Decimal as _D
+    from fractions import Fraction as _F
+    for l, x in [([0, 2 ** 63, 2 ** 64 + 1], 2 ** 63 - 1), ([0, 2 ** 63, 2 ** 64 + 1], 2 ** 63 + 1), ([10 ** 30], 10 ** 30 + 1), ([10 ** 30 - 1, 10 ** 30], 10 ** 30 - 1),
+                 ([-2 ** 70, 0], -2 ** 70 - 1), ([2 ** 53, 2 ** 53 + 2], 2 ** 53 + 1), ([float(2 ** 53)], 2 ** 53 + 1), ([0.1, 0.5], _D("0.1")), ([0.1, 0.5], _D("0.5")),
+                 ([0.1, 0.3], _F(1, 10)), ([_F(1, 3), _F(2, 3)], 1 / 3), ([0.5, 2.5], _F(5, 2)), ([1, 2, 3], 2.0000000000000004), ([1.0, 2.0], 2 ** 70)]:
+        yield l, x
     for c in range(n):
         k = rng.randrange(0, 40)
         if c % 25 == 7:
